@@ -850,7 +850,11 @@ def matrix_inverse_pth_root(
   if matrix_size == 1:
     damped_matrix = matrix + ridge_epsilon
     resultant_mat_h = damped_matrix**alpha
-    error = jnp.array(0, jnp.float32)
+    # The closed form is exact, but report a non-finite root (NaN statistic, or
+    # a zero statistic with a zero ridge) as failed rather than as error-free.
+    error = jnp.max(
+        jnp.where(jnp.isfinite(resultant_mat_h), 0.0, jnp.nan)).astype(
+            jnp.float32)
     iters = 0
     error_ratio = 0.0
     total_retries = 0
